@@ -25,8 +25,35 @@ def _xtok(x):
     return 'i:%d' % x[1] if x[0] == 'i' else 'a:%d:%d' % (x[1], x[2])
 
 
+def _exact(v, op, n):
+    """the exact mathematical result (Python's own unbounded ints) and the error class the property names"""
+    if op in ('add', 'radd', 'iadd'):
+        return v + n, 'index'
+    if op in ('sub', 'isub'):
+        return v - n, 'index'
+    if op == 'rsub':
+        return n - v, 'index'
+    if op == 'or':
+        return v | n, 'addrFormat'
+    if op == 'and':
+        return v & n, 'addrFormat'
+    if op == 'xor':
+        return v ^ n, 'addrFormat'
+    if op == 'shl':
+        return v * (2 ** n), 'addrFormat'
+    if op == 'shr':
+        return v // (2 ** n), 'addrFormat'
+    raise KeyError(op)
+
+
 def _arith(ver, v, op, x):
-    return Case('arith A:%d:%d %s %s' % (ver, v, op, _xtok(x)), '%s/v%d' % (op, ver), ('arith', ver, v, op, x))
+    n = x[1] if x[0] == 'i' else x[2]
+    exp, _ = _exact(v, op, n)
+    zone = 'ok' if 0 <= exp < (1 << W[ver]) else ('neg' if exp < 0 else 'over')
+    if 0 <= exp < (1 << W[ver]) and exp in (0, (1 << W[ver]) - 1):
+        zone = 'edge'
+    tag = '%s/v%d/%s%s' % (op, ver, zone, '/addr-operand' if x[0] == 'a' else '')
+    return Case('arith A:%d:%d %s %s' % (ver, v, op, _xtok(x)), tag, ('arith', ver, v, op, x))
 
 
 def _ctor(x, ver):
@@ -104,9 +131,9 @@ def generate(rng, tier):
         m = (1 << w) - 1
         # ---- + and -
         vals = value_classes(rng, w, n_random=3 * mult)
-        for v in rng.sample(vals, min(len(vals), 14 * mult)):
+        for v in rng.sample(vals, min(len(vals), 24 * mult)):
             ns = _ns(rng, w, v)
-            for n in rng.sample(ns, min(len(ns), 16)):
+            for n in rng.sample(ns, min(len(ns), 20)):
                 for op in ARITH:
                     cases.append(_arith(ver, v, op, ('i', n)))
         # top / bottom addresses always
@@ -116,7 +143,7 @@ def generate(rng, tier):
                     cases.append(_arith(ver, v, op, ('i', n)))
         # ---- bitwise
         vals = value_classes(rng, w, n_random=3 * mult)
-        for v in rng.sample(vals, min(len(vals), 10 * mult)):
+        for v in rng.sample(vals, min(len(vals), 16 * mult)):
             xs = _bit_operands(rng, ver, v)
             for x in rng.sample(xs, min(len(xs), 14)):
                 for op in BITS:
@@ -134,7 +161,8 @@ def generate(rng, tier):
         vc = value_classes(rng, w)
         for v in rng.sample(vc, min(len(vc), 20 * mult)):
             cases.append(_conv(ver, v))
-        cases.append(_conv(ver, 0))
+        for v in boundary_values(w) + [255, 256, 0xffffffff & m]:
+            cases.append(_conv(ver, v))
     # ---- constructor
     m4, m6 = (1 << 32) - 1, (1 << 128) - 1
     xs = [-1, 0, 1, -2, m4 - 1, m4, m4 + 1, m4 + 2, -m4, -m4 - 1, m6 - 1, m6, m6 + 1, m6 + 2, -m6, -m6 - 1,
@@ -225,24 +253,7 @@ def oracle(c, got):
         _, ver, v, op, x = a
         m = (1 << W[ver]) - 1
         n = x[1] if x[0] == 'i' else x[2]
-        if op in ('add', 'radd', 'iadd'):
-            exp, err = v + n, 'index'
-        elif op in ('sub', 'isub'):
-            exp, err = v - n, 'index'
-        elif op == 'rsub':
-            exp, err = n - v, 'index'
-        elif op == 'or':
-            exp, err = v | n, 'addrFormat'
-        elif op == 'and':
-            exp, err = v & n, 'addrFormat'
-        elif op == 'xor':
-            exp, err = v ^ n, 'addrFormat'
-        elif op == 'shl':
-            exp, err = v * (2 ** n), 'addrFormat'
-        elif op == 'shr':
-            exp, err = v // (2 ** n), 'addrFormat'
-        else:
-            return 'unknown op'
+        exp, err = _exact(v, op, n)
         if 0 <= exp <= m:
             after = exp if op in ('iadd', 'isub') else v
             want = '%d:%d~%d:%d' % (ver, exp, ver, after)
